@@ -237,5 +237,10 @@ def ang_close(a, b):
         return a is None and b is None
     if isinstance(a, (list, tuple)):
         return isinstance(b, (list, tuple)) and len(a) == len(b) and all(ang_close(x, y) for x, y in zip(a, b))
-    d = (float(a) - float(b)) / (2 * math.pi)
+    if isinstance(b, (list, tuple)):
+        return False
+    try:
+        d = (float(a) - float(b)) / (2 * math.pi)
+    except (TypeError, ValueError):
+        return False
     return abs(d - round(d)) < 1e-9
